@@ -56,6 +56,7 @@ func (e *engine) checkWordLine(worker int, raw []byte) error {
 	variants := [][]byte{w}
 	if e.extra["wrap"] != "0" {
 		variants = append(variants, append(append([]byte("\n\t "), w...), []byte(" \r\n")...))
+		variants = append(variants, append(append([]byte("\r\n"), w...), []byte("\t")...))
 	}
 	for vi, t := range variants {
 		text := t
@@ -186,6 +187,10 @@ var probePatches = [][]byte{
 	[]byte(`[{"op":"replace","path":"","value":null},{"op":"replace","path":"/a/0","value":1}]`),
 	[]byte(`[{"op":"replace","path":"","value":null},{"op":"move","from":"/0/a","path":"/1"}]`),
 	[]byte(`[{"op":"replace","path":"","value":null},{"op":"copy","from":"","path":"/a/b"}]`),
+	[]byte(`[{"op":"replace","path":"","value":null},{"op":"copy","from":"","path":"/0"}]`),
+	[]byte(`[{"op":"replace","path":"","value":null},{"op":"copy","from":"","path":"/a"}]`),
+	[]byte(`[{"op":"replace","path":"","value":null},{"op":"move","from":"/0","path":"/a"}]`),
+	[]byte(`[{"op":"replace","path":"","value":null},{"op":"test","path":"/0","value":null},{"op":"remove","path":"/-1"}]`),
 	[]byte(`[{"op":"replace","path":"","value":null},{"op":"test","path":"/a/b","value":null}]`),
 	[]byte(`[{"op":"add","path":"","value":null},{"op":"add","path":"/a/b","value":1},{"op":"copy","from":"","path":"/c"}]`),
 	[]byte(`[{"op":"add","path":"","value":[null]},{"op":"copy","from":"/0","path":"/-"},{"op":"test","path":"","value":[null,null]},{"op":"move","from":"/0","path":"/0/x"}]`),
